@@ -511,7 +511,29 @@ Inductive ninput :=
 | InMsg (m : message)                                  (* Poll delivers a board message addressed to us *)
 | InReinit (r : option redkg)                          (* a reinit_dkg board message *)
 | InResult (x : op_result)                             (* POST of an operation result *)
-| InRestart.                                           (* process restart: volatile state is lost *)
+| InRestart                                            (* process restart: volatile state is lost *)
+| InCrashMsg (k : nat) (m : message)                   (* the process dies while handling m, after k durable writes *)
+| InCrashResult (k : nat) (x : op_result).
+
+(* durable writes (calls of state.Set / storage.Send); WSkip and WSrc are bookkeeping of the model *)
+Definition is_durable (w : write) : bool :=
+  match w with WSkip _ | WSrc _ _ => false | _ => true end.
+
+(* the prefix of a trace that contains k durable writes (with the bookkeeping entries before them) *)
+Fixpoint take_durable (k : nat) (tr : list write) : list write :=
+  match tr with
+  | [] => []
+  | w :: r => if is_durable w then match k with O => [] | S k' => w :: take_durable k' r end
+              else w :: take_durable k r
+  end.
+
+Definition trace_of {A} (r : res A) : list write :=
+  match r with ROk h _ => h_tr h | RErr h => h_tr h | RPanic => [] end.
+
+(* a crash after k durable writes of a handler, followed by a restart *)
+Definition crash_after {A} (st : nstate) (k : nat) (r : res A) : res unit :=
+  let st' := fold_left apply_write (take_durable k (trace_of r)) st in
+  ROk (emit {| h_st := st'; h_tr := [] |} (WSkip false)) tt.
 
 Definition node_step (now : Z) (st : nstate) (i : ninput) : res unit :=
   let h0 := {| h_st := st; h_tr := [] |} in
@@ -520,6 +542,8 @@ Definition node_step (now : Z) (st : nstate) (i : ninput) : res unit :=
   | InReinit r => reinit_dkg now h0 r
   | InResult x => execute_operation h0 x
   | InRestart => ROk (emit h0 (WSkip false)) tt
+  | InCrashMsg k m => crash_after st k (process_board_message now h0 m)
+  | InCrashResult k x => crash_after st k (execute_operation h0 x)
   end.
 
 Definition empty_node (user key : tok) : nstate :=
